@@ -486,6 +486,8 @@ impl<T: Copy> Buffer<T> {
         }
         s.rpos = newpos;
         s.used -= n;
+        #[cfg(feature = "verif_hooks")]
+        crate::verif::moved(self.verif_id(), n);
         cv.notify_all();
     }
 
@@ -532,6 +534,8 @@ impl<T: Copy> Buffer<T> {
         }
         s.wpos = (s.wpos + n) % s.capacity();
         s.used += n;
+        #[cfg(feature = "verif_hooks")]
+        crate::verif::moved(self.verif_id(), n);
         cv.notify_all();
     }
 
